@@ -149,6 +149,24 @@ def direct_targets(W):
         e.contains("x"), e.contains_weak("x"), e.contains_raw('W/"x"'), e.is_strong("x"), bool(e), list(e)
         return e
 
+    def make_conditional_use(keys, fixed=None):
+        # client-controlled validators and ranges meeting a response (what send_file / static file serving does with
+        # them): the status that comes out is an int, or RequestedRangeNotSatisfiable / another HTTP exception
+        def use(s):
+            from werkzeug.wrappers import Response
+
+            env = {"REQUEST_METHOD": "GET", **(fixed or {})}
+            for k in keys:
+                env[k] = s
+            r = Response(b"0123456789")
+            r.set_etag("x")
+            r.last_modified = datetime(2020, 1, 1)
+            r.make_conditional(env, accept_ranges=True, complete_length=10)
+            b"".join(r.get_app_iter({"REQUEST_METHOD": "GET"}))
+            return r.status_code
+
+        return use
+
     T = [
         ("parse_options_header", http.parse_options_header, opt_ok),
         ("parse_list_header", http.parse_list_header, is_str_list),
@@ -175,6 +193,10 @@ def direct_targets(W):
         ("WWWAuthenticate.from_header", auth_use(DS.WWWAuthenticate), lambda v: v is None or isinstance(v, DS.WWWAuthenticate)),
         ("unquote_header_value", http.unquote_header_value, lambda v: isinstance(v, str)),
         ("is_resource_modified", lambda s: http.is_resource_modified({"REQUEST_METHOD": "GET", "HTTP_IF_NONE_MATCH": s, "HTTP_IF_MODIFIED_SINCE": s, "HTTP_IF_MATCH": s, "HTTP_RANGE": s, "HTTP_IF_RANGE": s}, etag="x", last_modified=__import__("datetime").datetime(2020, 1, 1)), lambda v: isinstance(v, bool)),
+        ("is_resource_modified[if-range honoured]", lambda s: http.is_resource_modified({"REQUEST_METHOD": "GET", "HTTP_RANGE": "bytes=0-1", "HTTP_IF_RANGE": s, "HTTP_IF_MODIFIED_SINCE": s}, etag='"x"', last_modified="Wed, 01 Jan 2020 00:00:00 GMT", ignore_if_range=False), lambda v: isinstance(v, bool)),
+        ("make_conditional[range+if-range]", make_conditional_use(("HTTP_RANGE", "HTTP_IF_RANGE")), lambda v: isinstance(v, int)),
+        ("make_conditional[if-range]", make_conditional_use(("HTTP_IF_RANGE",), {"HTTP_RANGE": "bytes=1-2"}), lambda v: isinstance(v, int)),
+        ("make_conditional[validators]", make_conditional_use(("HTTP_IF_NONE_MATCH", "HTTP_IF_MATCH", "HTTP_IF_MODIFIED_SINCE", "HTTP_IF_UNMODIFIED_SINCE")), lambda v: isinstance(v, int)),
     ]
     return T
 
@@ -274,6 +296,16 @@ def make_environ(W, rng, body=None, ct=None):
             v = "/" + v
         hostile_vars[h] = v
     env.update(hostile_vars)
+    # well-formed server-side variation: the scheme, and a request without a Host header (HTTP/1.0) on servers
+    # listening on a name, an IPv4 or an IPv6 address, a standard or another port
+    k = rng.randrange(8)
+    if k in (1, 2, 3):
+        env["wsgi.url_scheme"] = "https"
+        env["SERVER_PORT"] = rng.choice(["443", "8443", "80"])
+    if k in (3, 4, 5) and "HTTP_HOST" not in hostile_vars:
+        env.pop("HTTP_HOST", None)
+        env["SERVER_NAME"] = rng.choice(["srv.example", "127.0.0.1", "::1", "fe80::1", "[::1]"])
+        env["SERVER_PROTOCOL"] = "HTTP/1.0"
     if body is not None:
         env["wsgi.input"] = io.BytesIO(body)
         env["REQUEST_METHOD"] = "POST"
